@@ -420,6 +420,7 @@ pub fn run(ctx: &Ctx) -> CheckResult {
         let outs = par_run(ctx, &kinds, |_, &k| {
             let mut out = JobOut::default();
             let alpha = generic_alphabet(k, false);
+            let sweep_full = if matches!(k, Kind::Mad | Kind::Cci | Kind::Er) { if th { 700 } else { 300 } } else if th { 2000 } else { 1100 };
             for p in 1..=2000usize {
                 let cfgs: Vec<Cfg> = match k.nperiods() {
                     1 => vec![if k.has_mult() { Cfg::pm(k, p, 2.0) } else { Cfg::p1(k, p) }],
@@ -437,12 +438,33 @@ pub fn run(ctx: &Ctx) -> CheckResult {
                         if params_text(b.as_ref()) != params_text(a.as_ref()) {
                             return Err(format!("parameters {} vs {}", params_text(b.as_ref()), params_text(a.as_ref())));
                         }
+                        // a full window plus the wrap-around (cursor / counter widths chosen from the period fail
+                        // for isolated period values such as 255), round trip, 24 more inputs on both
+                        let linear = matches!(k, Kind::Mad | Kind::Cci | Kind::Er);
+                        if p <= sweep_full || (!linear && (p + 2).is_power_of_two()) || (p + 1).is_power_of_two() || p.is_power_of_two() || (p - 1).is_power_of_two() {
+                            let w = cfg.max_period();
+                            for i in 1..(w + 2) {
+                                a.apply(&alpha[(i * 7 + i / 3) % alpha.len()]);
+                            }
+                            let bytes = a.ser().map_err(|e| format!("serialize: {}", e))?;
+                            let mut b = a.de(&bytes).map_err(|e| format!("deserialize: {}", e))?;
+                            for i in 0..24usize {
+                                let op = alpha[(i * 5 + 1) % alpha.len()];
+                                let oa = a.apply(&op);
+                                let ob = b.apply(&op);
+                                for c in 0..oa.n as usize {
+                                    if oa.v[c].to_bits() != ob.v[c].to_bits() && !(oa.v[c].is_nan() && ob.v[c].is_nan()) {
+                                        return Err(format!("continuation step {} after a round trip at {} inputs: original {} restored {}", i + 1, w + 1, out2s(&oa), out2s(&ob)));
+                                    }
+                                }
+                            }
+                        }
                         Ok(())
                     }));
                     match r {
                         Ok(Ok(())) => {}
                         Ok(Err(why)) => {
-                            out.fail(Violation::new(PROP, &cfg, &alpha[..1], if why.starts_with("parameters") { "parameters-changed" } else { "deserialize-failed" }).obs(why).exp("restored copy has the same parameters and Display text".into()).with("checkpoint", "serde@1".to_string()));
+                            out.fail(Violation::new(PROP, &cfg, &alpha[..1], if why.starts_with("parameters") { "parameters-changed" } else if why.starts_with("continuation") { "continuation-differs" } else { "deserialize-failed" }).obs(why).exp("restored copy has the same parameters and Display text".into()).with("checkpoint", "serde@1".to_string()));
                             return out;
                         }
                         Err(_) => {
@@ -490,7 +512,7 @@ pub fn run(ctx: &Ctx) -> CheckResult {
     res.extra.insert("checkpoints".into(), json!(rows));
     res.extra.insert("distinct_checkpoint_states_total".into(), json!(total_cp));
     res.rule = "case = (configuration, checkpoint history, continuation): the real indicator after the history is serialized with bincode and deserialized once and twice; every continuation of n+2 inputs over 3 values is fed to the original (rebuilt by replay) and both restored copies, outputs compared at 1e-12 relative; checkpoints de-duplicated by concrete state; non-trivial = checkpoint history at least as long as the window".into();
-    res.bounds = format!("all 22 indicators, periods 1..4 (tuples over {{1,2,3}}), every history in seq(3 (thorough: 4) values + NaN + a 3.3e7 spike + reset, {dp}) as checkpoint, all 3^(n+2) continuations over 2 values + reset; long-history family: every prefix length 0..=3n+3 of 2 default streams (with resets and a NaN) as checkpoint for periods up to 64/257 (defaults 9,10,14,20,22,12/26/9 included), 3 continuations of n+2 inputs; parameters / Display across a round trip for every period 1..=2000 in every position; period 70000 on a 70010-step stream with checkpoints at 1000, 65535..65537 and 69999..70001; all 10^5 lattice DataItems that build() accepts");
+    res.bounds = format!("all 22 indicators, periods 1..4 (tuples over {{1,2,3}}), every history in seq(3 (thorough: 4) values + NaN + a 3.3e7 spike + reset, {dp}) as checkpoint, all 3^(n+2) continuations over 2 values + reset; long-history family: every prefix length 0..=3n+3 of 2 default streams (with resets and a NaN) as checkpoint for periods up to 64/257 (defaults 9,10,14,20,22,12/26/9 included), 3 continuations of n+2 inputs; parameters / Display across a round trip for every period 1..=2000 in every position, and for every period up to 1100 / 2000 (300 / 700 for the O(n)-per-step indicators; powers of two +-1 beyond) a round trip after a full window plus one input followed by 24 more inputs; period 70000 on a 70010-step stream with checkpoints at 1000, 65535..65537 and 69999..70001; all 10^5 lattice DataItems that build() accepts");
     res.assumptions = vec!["bincode 1.3 is the serialization format exercised (the property names it)".into()];
     res
 }
